@@ -173,7 +173,7 @@ def outcome_class(o, reported):
     return 'bad:' + st
 
 
-def one_run(case, w, args, replies, interactive):
+def one_run(case, w, args, replies, interactive, plan=None):
     cwd = w.cwd()
     des = []
     seen = set()
@@ -191,7 +191,7 @@ def one_run(case, w, args, replies, interactive):
                 stdin += rp + '\n'
     s0 = w.snapshot()
     argv = list(case['opts']) + ['--'] + [world.subst(a['spelling'], w.R) for a in args]
-    r = run.run(w, 'put', argv, stdin=stdin.encode())
+    r = run.run(w, 'put', argv, stdin=stdin.encode(), plan=plan)
     s1 = w.snapshot()
     A = putcheck.analyze(s0, s1, des)
     err = r.errtext()
@@ -294,6 +294,20 @@ def run_case(case):
         if ca[0] != classes[i]:
             viol('outcome-differs-from-running-alone/%s' % a['acls'], index=i,
                  alone=ca[0], in_list=classes[i], alone_run=ra.brief())
+    # (v) nobody listens to the diagnostics (2>&1 | head: the reader has
+    # gone): every argument is still processed, the exit status is the same
+    if case.get('index', 0) % 4 == 2 and not tb and not inter:
+        with world.World(case) as wd:
+            rd, Ad, cd, _ = one_run(case, wd, args, case['replies'], inter,
+                                    plan={'stderr_fail_at': 1, 'stderr_errno': 32,
+                                          'stderr_real_pipe': True})
+        obs['runs_with_deaf_stderr'] = 1
+        st_l = [o['state'] for o in A.outcomes]
+        st_d = [o['state'] for o in Ad.outcomes]
+        if st_d != st_l or rd.exit != r.exit:
+            viol('deaf-stderr-changes-the-run', states=st_d, listening=st_l,
+                 exit_deaf=rd.exit, signal=getattr(rd, 'signal', None),
+                 exit_listening=r.exit)
     out['nontrivial'] = len(set(a['acls'] for a in args)) >= 2
     out['sample_obs'] = {'exit': r.exit, 'classes': classes,
                          'args': [a['acls'] for a in args]}
